@@ -1619,6 +1619,11 @@ func (v *VMValue) FuncInvokeRaw(ctx *Context, params []*VMValue, useUpCtxLocal b
 		return nil
 	}
 
+	if cd.code == nil && strings.TrimSpace(cd.Expr) == "" {
+		// func f() { } 从快照恢复后函数体是空文本；空文本不是合法的程序，但空函数体是合法的函数
+		cd.code = []ByteCode{}
+		cd.codeIndex = 0
+	}
 	if cd.code == nil {
 		// 首次执行(如从序列化数据恢复的值)需要先编译；Parse 会清零算力计数，此处需保留，否则递归调用不受算力上限约束
 		opCount := vm.NumOpCount
